@@ -1,35 +1,350 @@
 package main
 
-import "MODULEPATH/zzverif/rt"
+// C14 — headers the proxy decodes are re-encoded without loss or distortion.
+// One harness per header type; values = grammar skeleton x symbolic atoms.
 
-// VC14_ViaSmoke: first smoke harness for the engine.
-func VC14_ViaSmoke() {
-	L := rt.Param("L")
-	n := rt.Choice("entries", rt.Param("E")) + 1
-	s := ""
-	for i := 0; i < n; i++ {
-		e := "SIP/2.0/" + rt.Str("tr", "token", 1, L) + " " + rt.Str("host", "host", 1, L)
-		if rt.Bool("port") {
-			e += ":" + rt.Dec("p", 5)
-		}
-		np := rt.Choice("params", rt.Param("P")+1)
-		for j := 0; j < np; j++ {
-			e += ";" + rt.Str("pk", "token", 1, L)
-			if rt.Bool("pv") {
-				e += "=" + rt.Str("pval", "token", 1, L)
-			}
-		}
-		if i > 0 {
-			s += ","
-		}
-		s += e
+import (
+	"strings"
+
+	"MODULEPATH/zzverif/rt"
+)
+
+// knownURI labels the two sub-domains the property itself names as known findings.
+func knownURI(u gURI) {
+	rt.Known("C14-ipv6-ref", u.ipv6)
+	if u.sip && u.user != "" {
+		rt.Known("C14-user-semi-q", strings.ContainsAny(u.user, ";?"))
 	}
-	v, err := ParseVia(s)
-	rt.Assert(err == nil, "decodes")
+}
+
+func checkSIPURIParts(s *SIPURI, u gURI, what string) {
+	rt.Assert(s.Scheme == u.scheme, what+": scheme")
+	rt.Assert(s.User == u.user, what+": user")
+	rt.Assert(s.Password == u.pass, what+": password")
+	rt.Assert(s.Host == u.host, what+": host")
+	if u.port != "" {
+		rt.Assert(itoa(s.GetPort()) == u.port, what+": port")
+	} else {
+		tr, err := s.GetParameter("transport")
+		if err == nil && tr == "tls" {
+			rt.Assert(s.GetPort() == 5061, what+": default port (tls)")
+		} else {
+			rt.Assert(s.GetPort() == 5060, what+": default port")
+		}
+	}
+	rt.Assert(len(s.Parameters) == len(u.pkeys), what+": number of URI parameters")
+	if len(s.Parameters) == len(u.pkeys) {
+		for i := range u.pkeys {
+			rt.Assert(s.Parameters[i].Key == u.pkeys[i], what+": URI parameter name")
+			rt.Assert(s.Parameters[i].Value == u.pvals[i], what+": URI parameter value")
+		}
+	}
+	rt.Assert(len(s.Headers) == len(u.hkeys), what+": number of URI headers")
+	if len(s.Headers) == len(u.hkeys) {
+		for i := range u.hkeys {
+			rt.Assert(s.Headers[i].Key == u.hkeys[i], what+": URI header name")
+			rt.Assert(s.Headers[i].Value == u.hvals[i], what+": URI header value")
+		}
+	}
+}
+
+// VC14_RequestURI: Request-URI / addr-spec round trip and components.
+func VC14_RequestURI() {
+	L, P, H := rt.Param("L"), rt.Param("P"), rt.Param("H")
+	u := genAnyURI(L, P, H, true)
+	knownURI(u)
+	a, err := ParseAddrSpec(u.text)
+	rt.Assert(err == nil, "addr-spec decodes")
 	if err != nil {
 		return
 	}
-	rt.Assert(v.String() == s, "re-encodes byte-identically")
+	rt.Assert(a.String() == u.text, "addr-spec re-encodes byte-identically")
+	rt.Assert(a.IsSIPURI() == u.sip, "addr-spec kind")
+	if u.sip && a.IsSIPURI() {
+		s, _ := a.GetSIPURI()
+		checkSIPURIParts(s, u, "request-uri")
+	}
+	rt.Observe("out", a.String())
+	rt.Reach("end")
+}
+
+type gVia struct {
+	text, proto, host, port string
+	keys, vals             []string
+}
+
+// genViaEntry: sent-protocol with any transport token, host, optional port, 0..V parameters
+// drawn from {branch, received, rport valueless, rport numeric, maddr/extension}.
+func genViaEntry(L, V int) gVia {
+	var g gVia
+	g.proto = rt.Str("tr", clsToken+"-[/]", 1, L)
+	var v6 bool
+	g.host, v6 = genHost(L, rt.Bool("ipv6"))
+	rt.Known("C14-ipv6-ref", v6)
+	g.text = "SIP/2.0/" + g.proto + " " + g.host
+	if rt.Bool("viaport") {
+		g.port = genPort()
+		g.text += ":" + g.port
+	}
+	n := rt.Choice("nviaparams", V+1)
+	for i := 0; i < n; i++ {
+		var k, v string
+		switch rt.Choice("vpkind", 5) {
+		case 0:
+			k, v = "branch", rt.Str("branch", clsToken, 1, L)
+		case 1:
+			k, v = "received", rt.Str("recv", clsHost, 1, L)
+		case 2:
+			k, v = "rport", ""
+		case 3:
+			k, v = "rport", rt.Dec("rport", 5)
+		case 4:
+			k = rt.Str("vk", clsToken, 1, L)
+			if rt.Bool("vhasv") {
+				v = rt.Str("vv", clsToken, 1, L)
+			}
+		}
+		g.keys, g.vals = append(g.keys, k), append(g.vals, v)
+		g.text += ";" + k
+		if v != "" {
+			g.text += "=" + v
+		}
+	}
+	return g
+}
+
+// VC14_Via: Via with 1..E entries.
+func VC14_Via() {
+	L, E, V := rt.Param("L"), rt.Param("E"), rt.Param("V")
+	n := rt.Choice("entries", E) + 1
+	var es []gVia
+	s := ""
+	for i := 0; i < n; i++ {
+		e := genViaEntry(L, V)
+		es = append(es, e)
+		if i > 0 {
+			s += ","
+		}
+		s += e.text
+	}
+	v, err := ParseVia(s)
+	rt.Assert(err == nil, "Via decodes")
+	if err != nil {
+		return
+	}
+	rt.Assert(v.String() == s, "Via re-encodes byte-identically")
+	rt.Assert(v.Size() == n, "Via: number of entries")
+	if v.Size() == n {
+		for i, e := range es {
+			p, _ := v.GetParam(i)
+			rt.Assert(p.ProtocolName == "SIP" && p.ProtocolVersion == "2.0", "Via: protocol name/version")
+			rt.Assert(p.Transport == e.proto, "Via: transport")
+			rt.Assert(p.Host == e.host, "Via: host")
+			if e.port != "" {
+				rt.Assert(itoa(p.GetPort()) == e.port, "Via: port")
+			} else if e.proto == "TLS" {
+				rt.Assert(p.GetPort() == 5061, "Via: default port (TLS)")
+			} else {
+				rt.Assert(p.GetPort() == 5060, "Via: default port")
+			}
+			rt.Assert(len(p.Params) == len(e.keys), "Via: number of parameters")
+			// accessors return the first parameter of that name
+			seen := map[string]bool{}
+			for j, k := range e.keys {
+				if seen[k] {
+					continue
+				}
+				seen[k] = true
+				switch k {
+				case "branch":
+					b, err := p.GetBranch()
+					rt.Assert(err == nil && b == e.vals[j], "Via: branch accessor")
+				case "received":
+					r, err := p.GetReceived()
+					rt.Assert(err == nil && r == e.vals[j], "Via: received accessor")
+				case "rport":
+					rp, err := p.GetRPort()
+					if e.vals[j] == "" {
+						rt.Assert(err != nil, "Via: valueless rport is not a number")
+					} else {
+						rt.Assert(err == nil && itoa(rp) == e.vals[j], "Via: rport accessor")
+					}
+				}
+			}
+		}
+	}
 	rt.Observe("out", v.String())
+	rt.Reach("end")
+}
+
+type gNameAddr struct {
+	text    string
+	display string
+	uri     gURI
+	params  gParams
+}
+
+func genRouteEntry(L, P, H, Q int) gNameAddr {
+	var g gNameAddr
+	if rt.Param("D") > 0 {
+		g.display = genDisplay(L)
+	}
+	g.uri = genAnyURI(L, P, H, rt.Param("K") > 0)
+	knownURI(g.uri)
+	g.params = genHdrParams(L, Q)
+	g.text = g.display + "<" + g.uri.text + ">" + g.params.text
+	return g
+}
+
+// VC14_Route: Route and Record-Route lists with 1..E entries.
+func VC14_Route() {
+	L, E, P, H, Q := rt.Param("L"), rt.Param("E"), rt.Param("P"), rt.Param("H"), rt.Param("Q")
+	n := rt.Choice("entries", E) + 1
+	var es []gNameAddr
+	s := ""
+	for i := 0; i < n; i++ {
+		e := genRouteEntry(L, P, H, Q)
+		es = append(es, e)
+		if i > 0 {
+			s += ","
+		}
+		s += e.text
+	}
+	if rt.Bool("record-route") {
+		rr, err := ParseRecordRoute(s)
+		rt.Assert(err == nil, "Record-Route decodes")
+		if err != nil {
+			return
+		}
+		rt.Assert(rr.String() == s, "Record-Route re-encodes byte-identically")
+		rt.Assert(rr.GetRecRouteCount() == n, "Record-Route: number of entries")
+		if rr.GetRecRouteCount() == n {
+			for i, e := range es {
+				r, _ := rr.GetRecRoute(i)
+				rt.Assert(r.GetNameAddr().DisplayName == e.display, "Record-Route: display name")
+				rt.Assert(r.GetNameAddr().GetAddress().String() == e.uri.text, "Record-Route: URI")
+				rt.Assert(r.GetParamCount() == len(e.params.keys), "Record-Route: number of header parameters")
+			}
+		}
+		rt.Observe("out", rr.String())
+		rt.Reach("end")
+		return
+	}
+	r, err := ParseRoute(s)
+	rt.Assert(err == nil, "Route decodes")
+	if err != nil {
+		return
+	}
+	rt.Assert(r.String() == s, "Route re-encodes byte-identically")
+	rt.Assert(r.GetRouteParamCount() == n, "Route: number of entries")
+	if r.GetRouteParamCount() == n {
+		for i, e := range es {
+			rp, _ := r.GetRouteParam(i)
+			rt.Assert(rp.GetAddress().DisplayName == e.display, "Route: display name")
+			rt.Assert(rp.GetAddress().GetAddress().String() == e.uri.text, "Route: URI")
+			if e.uri.sip && rp.GetAddress().GetAddress().IsSIPURI() {
+				su, _ := rp.GetAddress().GetAddress().GetSIPURI()
+				checkSIPURIParts(su, e.uri, "route")
+			}
+		}
+	}
+	rt.Observe("out", r.String())
+	rt.Reach("end")
+}
+
+// VC14_FromTo: From / To in name-addr and bare addr-spec form, with tag and other parameters.
+func VC14_FromTo() {
+	L, P, H, Q := rt.Param("L"), rt.Param("P"), rt.Param("H"), rt.Param("Q")
+	bare := rt.Bool("bare")
+	var u gURI
+	s := ""
+	if bare {
+		// a bare addr-spec cannot carry ';' '?' or ',' itself (RFC 3261 section 20.10): no URI
+		// parameters / headers, opaque URIs without parameters
+		switch rt.Choice("urikind", 3) {
+		case 1:
+			u = genOpaqueURI(L, 0)
+		case 2:
+			u = genSIPURI(L, 0, 0, false, true)
+		default:
+			u = genSIPURI(L, 0, 0, false, false)
+		}
+		knownURI(u)
+		s = u.text
+	} else {
+		d := genDisplay(L)
+		u = genAnyURI(L, P, H, true)
+		knownURI(u)
+		s = d + "<" + u.text + ">"
+	}
+	// header parameters: optional tag in any position among 0..Q others
+	hp := genHdrParams(L, Q)
+	tag := ""
+	text := hp.text
+	hasTag := rt.Bool("hastag")
+	if hasTag {
+		tag = rt.Str("tag", clsToken, 1, L)
+		if rt.Bool("tagfirst") {
+			text = ";tag=" + tag + hp.text
+		} else {
+			text = hp.text + ";tag=" + tag
+		}
+		for _, k := range hp.keys {
+			rt.Assume(k != "tag")
+		}
+	}
+	s += text
+	if rt.Bool("to") {
+		t, err := ParseTo(s)
+		rt.Assert(err == nil, "To decodes")
+		if err != nil {
+			return
+		}
+		rt.Assert(t.String() == s, "To re-encodes byte-identically")
+		a, err := t.GetAddrSpec()
+		rt.Assert(err == nil && a.String() == u.text, "To: URI")
+		if hasTag {
+			g, err := t.GetTag()
+			rt.Assert(err == nil && g == tag, "To: tag accessor")
+		}
+		if u.sip {
+			h, err := t.GetHost()
+			rt.Assert(err == nil && h == u.host, "To: host accessor")
+		}
+		rt.Observe("out", t.String())
+		rt.Reach("end")
+		return
+	}
+	f, err := ParseFromSpec(s)
+	rt.Assert(err == nil, "From decodes")
+	if err != nil {
+		return
+	}
+	rt.Assert(f.String() == s, "From re-encodes byte-identically")
+	a, err := f.GetAddrSpec()
+	rt.Assert(err == nil && a.String() == u.text, "From: URI")
+	if hasTag {
+		g, err := f.GetTag()
+		rt.Assert(err == nil && g == tag, "From: tag accessor")
+	}
+	rt.Observe("out", f.String())
+	rt.Reach("end")
+}
+
+// VC14_CSeq: sequence number (canonical decimal) and method token.
+func VC14_CSeq() {
+	L := rt.Param("L")
+	n := rt.Dec("seq", 9)
+	m := rt.Str("method", clsToken, 1, L)
+	s := n + " " + m
+	c, err := ParseCSeq(s)
+	rt.Assert(err == nil, "CSeq decodes")
+	if err != nil {
+		return
+	}
+	rt.Assert(c.String() == s, "CSeq re-encodes byte-identically")
+	rt.Assert(c.Method == m, "CSeq: method")
+	rt.Assert(itoa(c.Seq) == n, "CSeq: number")
+	rt.Observe("out", c.String())
 	rt.Reach("end")
 }
